@@ -257,7 +257,7 @@ def plugins_consts(ctx):
     if not all(isinstance(x, str) for x in truthy):
         raise Untranslatable('str2bool: truthy values are not text')
     coerces = 'true' if mm.group(1).startswith('str(') else 'false'
-    return ('namespace Extracted.Plugins\nopen Plugins\n\n'
+    return ('namespace Extracted.Plugins\nopen _root_.Plugins\n\n'
             f'/-- `loaded.sort(key={key}' + (', reverse=…' if 'reverse' in kw else '') + ')` -/\n'
             f'def sortReverse : Bool := {rev}\n'
             f'/-- `order() or {none_as}` -/\n'
